@@ -298,6 +298,11 @@ Theorem C07x_returned_series_effective_degree : forall g rho_opt tau gam, wf_ugr
     forall t, S t == Se t /\ I t == Ie t /\ R t == Rr t.
 Proof. exact returned_series_effective_degree. Qed.
 
+(* the lift hypothesis is satisfiable: the constant solvers (rows = initial vector) satisfy it, for every Phi *)
+Example C07x_lift_nonvacuous : forall (Phi : Q -> Q -> vec) X0, veq X0 (Phi 1 0) -> forall t,
+  veq (const_solver X0 t) (Phi (vnth 0 (const_solver [1; 0] t)) (vnth 1 (const_solver [1; 0] t))).
+Proof. exact (fun Phi X0 H t => H). Qed.
+
 (* ---------- regular graphs, rho path: the wrappers start at corresponding points of the symmetric subspace ---------- *)
 (* regularb g k: every node has degree k.  r = rho (or 1/N), N = G.order().  The correspondences are the changes of variables of
    C07_lump_SIR/SIS_compact_pairwise_regular (Props/C07.v), C07_lump_SIS_heterogeneous_meanfield_regular and
@@ -448,6 +453,7 @@ Print Assumptions C07x_returned_series_compact_pairwise.
 Print Assumptions C07x_returned_series_super_compact_pairwise.
 Print Assumptions C07x_returned_series_compact_effective_degree.
 Print Assumptions C07x_returned_series_effective_degree.
+Print Assumptions C07x_lift_nonvacuous.
 Print Assumptions C07x_SIR_pairwise_regular_initial_points.
 Print Assumptions C07x_SIS_pairwise_regular_initial_points.
 Print Assumptions C07x_SIS_meanfield_regular_initial_points.
